@@ -114,7 +114,44 @@ def borrow(pid, macro, variant):
                    unwind=12, weight=3, solo=is_async)
 
 
+def borrow2(pid, macro):
+    """more shapes for the bounds claim: `??` (the generic __inspect helper) on borrowed and move-only values, a `let`-named
+    move-only branch in a multi-step try macro (its per-step check must not need Clone), a non-Copy value borrowed by the
+    closures of two `>>>` wrappers (the wrapper closures must not capture by move), `->` and a handler over borrows"""
+    is_async, is_try, _ = KINDS[macro]
+    L = ["let mut x = u(); let x0 = x; let k = u(); let y = u(); let big = nosend(k);"]
+    if not is_try:
+        text = ("%s! {\n        rx ?? |r: &&mut u8| { eva(1, **r); } ~-> |r: &mut u8| { *r ^= 1; *r },\n"
+                "        let named = nosend(y) ?? |t: &NoSend| { eva(2, t.0); } ~-> |t: NoSend| t,\n"
+                "        Some(Some(y)) |> >>> |> |v: u8| v ^ big.0 <<< ~|> >>> |> |v: u8| v.wrapping_add(big.0),\n"
+                "        Some(Some(x0)) |> >>> ?? |o: &Option<u8>| { eva(3, o.obs()); } |> |v: u8| v ^ big.0,\n"
+                "        then => |a: u8, b: NoSend, c: Option<Option<u8>>, d: Option<Option<u8>>| (a, b, c, d)\n    }" % macro)
+        L.append("let r = { let rx = &mut x; %s };" % text)
+        L.append("vassert!(r == (x0 ^ 1, nosend(y), Some(Some((y ^ k).wrapping_add(k))), Some(Some(x0 ^ k))), \"C19[%s]: values over borrowed / move-only data with ??, wrappers sharing a non-Copy value, named branch, handler\");" % pid)
+        L.append("vassert!(x == x0 ^ 1 && arg(1) == x0 && arg(2) == y && big == nosend(k), \"C19[%s]: borrows took effect, inspect callbacks saw the values, the shared value is still owned by the caller\");" % pid)
+    else:
+        text = ("%s! {\n        Some(rx) ?? |r: &Option<&mut u8>| { eva(1, 7); } ~|> |r: &mut u8| { *r ^= 1; *r },\n"
+                "        let named = Some(nosend(y)) ?? |t: &Option<NoSend>| { eva(2, t.as_ref().map(|t| t.0).unwrap_or(0)); } ~|> |t: NoSend| t ~|> |t: NoSend| (t, 5u8),\n"
+                "        Some(Some(y)) => >>> |> |v: u8| v ^ big.0 <<< ~=> >>> -> |v: u8| Some(v.wrapping_add(big.0)),\n"
+                "        map => |a: u8, b: (NoSend, u8), c: u8| (a, b, c)\n    }" % macro)
+        L.append("let r = { let rx = &mut x; %s };" % text)
+        L.append("vassert!(r == Some((x0 ^ 1, (nosend(y), 5u8), (y ^ k).wrapping_add(k))), \"C19[%s]: values over borrowed / move-only data (try, named multi-step move-only branch)\");" % pid)
+        L.append("vassert!(x == x0 ^ 1 && arg(2) == y && big == nosend(k), \"C19[%s]: borrows took effect; the shared value is still owned by the caller\");" % pid)
+    L.append("vcover!(true, \"end reached\");")
+    return Program(pid, text, "    " + "\n    ".join(L), desc=dict(macro=macro, values="&mut u8 under ??, named move-only !Send struct, non-Copy value borrowed by two wrappers"), group="bounds2/" + macro,
+                   role=dict(kind=macro), unwind=12, weight=3)
+
+
 def programs(tier, seed):
+    ps = programs_main(tier, seed)
+    i = 800
+    for macro in ("join", "try_join"):
+        i += 1
+        ps.append(borrow2("p%04d" % i, macro))
+    return ps
+
+
+def programs_main(tier, seed):
     ps = []
     i = 0
     profs = profiles(3, 3) if tier == "thorough" else [pr for pr in profiles(3, 3) if sum(pr) <= 6]
